@@ -24,8 +24,10 @@ pub enum Health {
     Directory,
     /// healthy, but its source holds another library definition in front of it
     SecondInSource,
+    /// a byte that is not UTF-8 on the LAST line of the file, in a comment after the complete form
+    NotUtf8Trailing,
 }
-pub const HEALTHS: [Health; 8] = [Health::Healthy, Health::Missing, Health::FaultingBody, Health::WrongName, Health::Broken, Health::NotUtf8, Health::Directory, Health::SecondInSource];
+pub const HEALTHS: [Health; 9] = [Health::Healthy, Health::Missing, Health::FaultingBody, Health::WrongName, Health::Broken, Health::NotUtf8, Health::Directory, Health::SecondInSource, Health::NotUtf8Trailing];
 const NAMES: [&str; 3] = ["la", "lb", "lc"];
 
 #[derive(Clone, Debug)]
@@ -143,7 +145,8 @@ fn lib_source(c: &Config, i: usize, defined_name: &str, body_faults: bool) -> St
     let imps: Vec<String> = (0..c.n).filter(|j| c.edges[i] & (1 << j) != 0).map(|j| import_set(c.style, i, j)).collect();
     let import = if imps.is_empty() { String::new() } else { format!(" (import {})", imps.join(" ")) };
     let value = if body_faults { "boom-unbound".to_string() } else { format!("{}", i + 1) };
-    format!("(define-library ({}) (export v{}){} (begin (define v{} {})))\n", defined_name, NAMES[i], import, NAMES[i], value)
+    // several lines: where in the file something goes wrong must not matter
+    format!("(define-library ({})\n  (export v{}){}\n  (begin\n    (define v{} {})))\n", defined_name, NAMES[i], import, NAMES[i], value)
 }
 
 /// the reference loader: set of acceptable error kinds for importing library `x` (empty = success)
@@ -165,7 +168,7 @@ pub fn reference_outcome(c: &Config, x: usize, registered: bool) -> BTreeSet<Str
                 errs.insert("Syntax".to_string());
                 return;
             }
-            Health::NotUtf8 | Health::Directory => {
+            Health::NotUtf8 | Health::NotUtf8Trailing | Health::Directory => {
                 errs.insert("Io".to_string());
                 return;
             }
@@ -242,6 +245,11 @@ fn write_config(c: &Config, dir: &std::path::Path) {
             Health::NotUtf8 => {
                 let mut b = lib_source(c, i, NAMES[i], false).into_bytes();
                 b[20] = 0xff;
+                std::fs::write(&p, b).unwrap()
+            }
+            Health::NotUtf8Trailing => {
+                let mut b = lib_source(c, i, NAMES[i], false).into_bytes();
+                b.extend_from_slice(b"; caf\xe9 au lait\n");
                 std::fs::write(&p, b).unwrap()
             }
             Health::Directory => std::fs::create_dir_all(&p).unwrap(),
@@ -537,7 +545,7 @@ pub fn run(ctx: &Ctx) -> i32 {
             tier: ctx.tier_name(),
             seed: ctx.seed,
             exhaustive: true,
-            rule: format!("every directed graph (self-loops allowed) on 1 and 2 libraries with every assignment of 8 node healths (healthy, missing, faulting body, wrong name in file, syntactically broken, not UTF-8, path is a directory, healthy behind another library definition in the same source); every graph on 3 libraries (512) with {}; the library-to-library edges written as plain names and, for all configurations on <= 2 libraries and the all-healthy graphs on 3, as only / prefix / rename / except / mixed / empty-only import sets; for each configuration every history of import attempts on one interpreter (length 3 on <= 2 libraries{}; maximal histories cover their prefixes), with the libraries as files under the program directory (decoy libraries with other values in the working directory) and as registered sources; states = configurations, transitions = import attempts; plus every sequence of <= 3 program files from three directories evaluated on one interpreter (each imports a library that lives next to it, decoys everywhere else)", if ctx.thorough() { "every health assignment (512)" } else { "at most one unhealthy node (22 assignments)" }, if ctx.thorough() { ", length 3 on 3 libraries with at most one unhealthy node, otherwise 2" } else { ", length 2 on 3 libraries" }),
+            rule: format!("every directed graph (self-loops allowed) on 1 and 2 libraries with every assignment of 9 node healths (healthy, missing, faulting body, wrong name in file, syntactically broken, not UTF-8 in the first line, not UTF-8 in a comment after the complete form, path is a directory, healthy behind another library definition in the same source); library files span several lines; every graph on 3 libraries (512) with {}; the library-to-library edges written as plain names and, for all configurations on <= 2 libraries and the all-healthy graphs on 3, as only / prefix / rename / except / mixed / empty-only import sets; for each configuration every history of import attempts on one interpreter (length 3 on <= 2 libraries{}; maximal histories cover their prefixes), with the libraries as files under the program directory (decoy libraries with other values in the working directory) and as registered sources; states = configurations, transitions = import attempts; plus every sequence of <= 3 program files from three directories evaluated on one interpreter (each imports a library that lives next to it, decoys everywhere else)", if ctx.thorough() { "every health assignment (729)" } else { "at most one unhealthy node (25 assignments)" }, if ctx.thorough() { ", length 3 on 3 libraries with at most one unhealthy node, otherwise 2" } else { ", length 2 on 3 libraries" }),
             bounds: json!({"configurations": total, "worker_deaths": res.deaths.len()}),
             assumptions: vec!["reference loader: cyclic-import error iff a cycle is reachable through readable libraries, the underlying error kind iff an unhealthy library is reachable, either when both, success otherwise; shared dependencies are not cycles".into(), "hook H2 (verif_in_progress) gives the in-progress set".into()],
             wall_s: ctx.elapsed(),
